@@ -65,9 +65,13 @@ InvGivenNetwork == kind # "C" =>
                    LET mine == Bytes(kind, tup) IN
                    \A y \in Space(kind) :
                       (y # tup /\ (kind \in {"P", "V"} => y.nn = tup.nn)) => Bytes(kind, y) # mine
+\* the tipset layout is injective outright (real widths)
+InvTipSetInjective == kind = "T" => LET mine == Bytes(kind, tup) IN \A y \in Space(kind) : y # tup => Bytes(kind, y) # mine
 \* expected to FAIL for kinds P and V (documented assumption: network name fixed per network)
 InvFull == LET mine == Bytes(kind, tup) IN
            \A y \in Space(kind) : (y # tup /\ Bytes(kind, y) = mine) => (PrintT(<<"VERIF_COLLISION", kind, tup, y>>) /\ FALSE)
 \* the symbolic length is the sum of the field widths
-InvLen == Len(Bytes(kind, tup)) = SegLen(Segs(kind, tup))
+RECURSIVE FlatLen(_)
+FlatLen(f) == IF f = <<>> THEN 0 ELSE (IF "b" \in DOMAIN Head(f) THEN Len(Head(f).b) ELSE Head(f).w) + FlatLen(Tail(f))
+InvLen == FlatLen(Bytes(kind, tup)) = SegLen(Segs(kind, tup))
 =============================================================================
